@@ -98,8 +98,15 @@ func (c13) Gen(r *sim.Rand, tier string, run uint64) *sim.Scenario {
 			}
 			ops = append(ops, sim.Op{K: "attach", N: []int64{int64(r.Intn(ndev)), s, e}})
 			edges = append(edges, s, e)
-		case x < 50:
+		case x < 44:
 			ops = append(ops, sim.Op{K: "read", N: []int64{pickAddr()}})
+		case x < 50:
+			// 24-bit read (three consecutive bytes), biased to straddle a 16-byte segment edge
+			a := pickAddr()
+			if r.Chance(2, 3) {
+				a = a&^0xF | int64(sim.PickInt(r, 0xD, 0xE, 0xF, 0xE))
+			}
+			ops = append(ops, sim.Op{K: "read24", N: []int64{a}})
 		case x < 65:
 			ops = append(ops, sim.Op{K: "write", N: []int64{pickAddr(), int64(r.Intn(256))}})
 		default:
@@ -249,6 +256,47 @@ func (c13) Exec(sc *sim.Scenario, env *sim.Env) *sim.Violation {
 			}
 			if op.K == "write" && ev.Val != val {
 				return &sim.Violation{Oracle: "write_value", Step: i, Msg: fmt.Sprintf("EaWrite(%06x,%02x): device received %02x", a, val, ev.Val)}
+			}
+		case "read24":
+			a := uint32(op.Arg(0)) & 0xFFFFFF
+			if a&0xFFFF > 0xFFFD {
+				continue // wrap behaviour at the end of a bank is not this property's subject
+			}
+			var want uint32
+			hole := false
+			for k := uint32(0); k < 3; k++ {
+				own := owner[(a+k)>>4]
+				if own < 0 {
+					hole = true
+				} else {
+					want |= uint32(devs[own].Peek(a+k)) << (8 * k)
+				}
+			}
+			var got uint32
+			p, pv := sim.RecoverLib(func() { got = b.EaRead24_wrap(byte(a>>16), uint16(a)) })
+			env.ObsBool(p)
+			env.ObsU64(uint64(got))
+			st.ProbeIf(a&0xF >= 0xE, "read24_straddles_segment")
+			if hole {
+				st.Fault("access_to_hole")
+				nontrivial = true
+				if !p {
+					return &sim.Violation{Oracle: "hole_not_loud", Step: i, Msg: fmt.Sprintf("24-bit read at %06x touches an unattached address but did not fail (returned %06x)", a, got)}
+				}
+				continue
+			}
+			if p {
+				return &sim.Violation{Oracle: "access_panic", Step: i, Msg: fmt.Sprintf("24-bit read at attached %06x panicked: %s", a, sim.PanicString(pv))}
+			}
+			if got != want {
+				return &sim.Violation{Oracle: "read_value", Step: i, Msg: fmt.Sprintf("EaRead24_wrap(%06x) returned %06x; byte-wise reads through the owners give %06x", a, got, want)}
+			}
+			for _, d := range devs {
+				for _, ev := range d.Log {
+					if ev.Write || ev.Addr < a || ev.Addr > a+2 || owner[ev.Addr>>4] != int8(d.ID) {
+						return &sim.Violation{Oracle: "routing", Step: i, Msg: fmt.Sprintf("24-bit read at %06x accessed device %d at %06x (owner of that address: %d)", a, d.ID, ev.Addr, owner[ev.Addr>>4])}
+					}
+				}
 			}
 		case "dump":
 			s, e := uint32(op.Arg(0))&0xFFFFFF, uint32(op.Arg(1))&0xFFFFFF
